@@ -138,9 +138,10 @@ impl Aml for CxlHostBridge {
     fn to_aml_bytes(&self, sink: &mut dyn AmlSink) {
         sink.byte(CedtStructureType::Chbs as u8);
         sink.byte(0); // reserved
-        sink.byte(Self::len() as u8);
+        sink.word(Self::len() as u16);
         sink.dword(self.host_bridge_uid);
         sink.dword(self.cxl_version as u32);
+        sink.dword(0); // reserved
         sink.qword(self.port_base);
         sink.qword(self.cxl_version.len() as u64);
     }
